@@ -18,14 +18,18 @@
    merge_text_nodes), any number of offered nodes (strings, tag() definitions, parentless nodes), any kind-based
    ambient filter, moves between trees.  Not modelled (both sides answer `Crash EUnmodelled`, so the theorems say
    nothing about the code there): comments / PIs added next to a parentless node or a document root.
+   Identities: `C01_step_cwf` / `C01_history_cwf` -- with the objects a call creates being new (`run_fresh`), unique node
+   identities are preserved (the full `cwf`, not only its shape part).  Text: `C01_text_conserved` -- a call that neither
+   assigns content nor merges (`run_structural`, computed along the run) leaves the multiset of (identity, content) of
+   all text nodes, attached or parentless, as it was, plus the text nodes made from the offered strings.
    Missing: `edit_ok` (the relation the property states, independent of the shared position scripts) with
-   `astep_sound`; preservation of `NoDup` identities (`cwf` is assumed, only its shape part `shape_ok` is shown
-   preserved -- no lemma needs uniqueness); `C01_text_conserved` as a separate multiset statement (it is implied by the
-   world equality for every operation that does not create, assign or merge text; checked dynamically by the harness). *)
+   `astep_sound`. *)
 From Coq Require Import List NArith ZArith Bool.
 From Delb.Base Require Import PyStr.
 From Delb.Tree Require Import ATree ITree AOps.
-From Delb.Conc Require Import CTree COps CGuard CEncode Refine Witness.
+From Coq Require Import Permutation.
+From Delb.Tree Require Import AGuard AOpsFacts.
+From Delb.Conc Require Import CTree COps CGuard CEncode Refine RefineIds Witness.
 Import ListNotations.
 
 (* which operations the history theorem covers: all of them *)
@@ -53,6 +57,34 @@ Print Assumptions C01_primitive.
 Theorem C01_pin : forall e d, el_ok e = true -> abs_el [] (pin_dns d e) = abs_el d e.
 Proof. intros e d H. exact (pin_abs e d [] H (or_introl eq_refl)). Qed.
 Print Assumptions C01_pin.
+
+(* unique identities are preserved: the whole of cwf, for steps and histories *)
+Theorem C01_step_cwf : forall F c o, cwf c -> step_ok F c o = true -> run_fresh (script F o) (abs_world c) = true ->
+  cwf (fst (cstep F c o)).
+Proof. exact step_cwf. Qed.
+Print Assumptions C01_step_cwf.
+Theorem C01_history_cwf : forall ops c, cwf c -> hist_ok c ops = true -> hist_fresh (abs_world c) ops = true ->
+  cwf (fst (crun c ops)).
+Proof. exact history_cwf. Qed.
+Print Assumptions C01_history_cwf.
+(* on the plain tree: every primitive update permutes the nodes; merging only drops the merged text nodes *)
+Theorem C01_ids_preserved : forall p w, NoDup (world_ids_a w) -> run_fresh p w = true ->
+  NoDup (world_ids_a (fst (run_a p w))).
+Proof. exact run_nodup. Qed.
+Print Assumptions C01_ids_preserved.
+
+(* no text is lost, duplicated, moved between nodes or changed *)
+Theorem C01_text_conserved : forall F c o, shape_ok c = true -> step_ok F c o = true ->
+  run_structural (script F o) (abs_world c) = true ->
+  Permutation (world_texts (abs_world (fst (cstep F c o))))
+              (world_texts (abs_world c) ++ run_new_texts (script F o) (abs_world c)).
+Proof. exact step_texts. Qed.
+Print Assumptions C01_text_conserved.
+
+Example C01_example_ids_text :
+  hist_fresh (abs_world w_big) sample_history = true /\
+  run_structural (script fall (OAddFollowing 3%N [SStr 20%N [120%N]; SNode 13%N; SStr 21%N [121%N]])) (abs_world w_big) = true.
+Proof. split; [exact sample_history_fresh|exact (proj1 sample_step_structural)]. Qed.
 
 (* the guard is necessary: one witness per class *)
 Theorem C01_step_refuted_empty_content : exists c o,
